@@ -135,7 +135,7 @@ function column_info_from_text_span(text_span, string_literals) {
     let attribute_match = /^([ab])\.([_a-zA-Z][_a-zA-Z0-9]*)$/.exec(text_span);
     let subscript_int_match = /^([ab])\[([0-9]+)\]$/.exec(text_span);
     let subscript_str_match = /^([ab])\[___RBQL_STRING_LITERAL([0-9]+)___\]$/.exec(text_span);
-    let as_alias_match = /^(.*) (as|AS) +([a-zA-Z][a-zA-Z0-9_]*) *$/.exec(text_span);
+    let as_alias_match = /^(.*) ([aA][sS]) +([a-zA-Z][a-zA-Z0-9_]*) *$/.exec(text_span);
     if (as_alias_match !== null) {
         return {table_name: null, column_index: null, column_name: null, is_star: false, alias_name: as_alias_match[3]};
     }
@@ -1364,7 +1364,7 @@ function translate_update_expression(update_expression, input_variables_map, str
 
 
 function translate_select_expression(select_expression) {
-    let as_alias_replacement_regexp = / +(AS|as) +([a-zA-Z][a-zA-Z0-9_]*) *(?=$|,)/g;
+    let as_alias_replacement_regexp = / +([aA][sS]) +([a-zA-Z][a-zA-Z0-9_]*) *(?=$|,)/g;
     let expression_without_counting_stars = replace_star_count(select_expression);
     let expression_without_as_column_alias = expression_without_counting_stars.replace(as_alias_replacement_regexp, '');
     let translated = str_strip(replace_star_vars(expression_without_as_column_alias));
